@@ -601,6 +601,58 @@ pub fn run(tier: &str) -> i32 {
         (out, n)
     });
     report.violations(ops_v.0);
+    // the string helpers agree with each other about what an occurrence of a pattern is - also where
+    // the documentation leaves it to them (the empty pattern): replace(s, p, t) is split(s, p)
+    // joined by t; contains(s, p) iff split(s, p) has more than one part or p is empty
+    let consistency = core::on_big_stack(|| {
+        let find = |name: &str| ex.iter().find_map(|(p, v)| if p == name { if let Variable::Function(f) = v { Some(f.clone()) } else { None } } else { None });
+        let (Some(replace), Some(split), Some(contains)) = (find("std.string.replace"), find("std.string.split"), find("std.string.contains")) else {
+            return (0u64, vec![Violation { sig: "C18|string-consistency|export-missing".into(), detail: json!({"kind": "stdlib"}) }]);
+        };
+        const STRS: &[&str] = &["", "a", "ab", "abc", "aXbXc", "X", "XX", "aa", "aaa", "é", "aéa", " ", "a b"];
+        const PATS: &[&str] = &["", "a", "X", "aa", "ab", "é", " ", "abc", "b"];
+        const TOS: &[&str] = &["", "-", "a", "XX"];
+        let mut out = Vec::new();
+        let mut n = 0u64;
+        for st in STRS {
+            for pat in PATS {
+                let parts = match call(&split, vec![(*st).into(), (*pat).into()]) {
+                    Ok(Variable::Array(a)) => a.iter().map(|x| if let Variable::String(s) = x { s.to_string() } else { format!("{x:?}") }).collect::<Vec<_>>(),
+                    other => {
+                        out.push(Violation { sig: "C18|string-consistency|split-failed".into(), detail: json!({"kind": "stdlib", "call": format!("std.string.split({st:?}, {pat:?})"), "observed": format!("{:?}", other.map(|v| canon(&v)))}) });
+                        continue;
+                    }
+                };
+                n += 1;
+                let has = match call(&contains, vec![(*st).into(), (*pat).into()]) {
+                    Ok(Variable::Bool(b)) => Some(b),
+                    _ => None,
+                };
+                if has != Some(parts.len() > 1 || pat.is_empty()) {
+                    out.push(Violation {
+                        sig: "C18|string-consistency|contains-vs-split".into(),
+                        detail: json!({"kind": "stdlib", "call": format!("std.string.contains({st:?}, {pat:?})"), "observed": format!("{has:?}"), "parts_of_split": parts}),
+                    });
+                }
+                for to in TOS {
+                    n += 1;
+                    let want = parts.join(to);
+                    let got = match call(&replace, vec![(*st).into(), (*pat).into(), (*to).into()]) {
+                        Ok(Variable::String(s)) => s.to_string(),
+                        other => format!("{:?}", other.map(|v| canon(&v))),
+                    };
+                    if got != want {
+                        out.push(Violation {
+                            sig: format!("C18|string-consistency|replace-vs-split|pattern-empty={}", pat.is_empty()),
+                            detail: json!({"kind": "stdlib", "call": format!("std.string.replace({st:?}, {pat:?}, {to:?})"), "expected (split joined by the replacement)": want, "observed": got}),
+                        });
+                    }
+                }
+            }
+        }
+        (n, out)
+    });
+    report.violations(consistency.1);
     // cgetline in subprocesses
     let cg = cgetline_cases();
     report.violations(cg.1);
@@ -632,6 +684,7 @@ pub fn run(tier: &str) -> i32 {
         "min_calls_per_function": min_calls,
         "calls_compared_with_reference_results": with_reference,
         "operator_equivalence_cases": ops_v.1,
+        "string_helper_consistency_cases (replace = split joined; contains iff split separates; patterns incl. the empty one)": consistency.0,
         "cgetline_subprocess_cases": cg.0,
         "fs_model_states": fs.states,
         "fs_model_transitions": fs.transitions,
